@@ -354,3 +354,32 @@ def add_knife_edge(rng, scene, prob=0.3):
         return scene
     scene["nonholonomic"] = [{"body": rigid[pick % len(rigid)], "rB": rB.tolist(), "n": n.tolist()}]
     return scene
+
+
+def rotate_contact_scene(scene, quat, shift):
+    """The same contact scene rigidly moved by (R, shift): bodies, planes (and their motion), gravity.  Physics does
+    not know which way is up; code that compares signed components or takes maxima over coordinates might."""
+    assert not scene.get("joints") and not scene.get("tpis") and not scene.get("forces") and not scene.get("frames")
+    quat = np.asarray(quat, dtype=float)
+    quat = quat / np.linalg.norm(quat)
+    R = rot.quat_to_mat(quat)
+    s = np.asarray(shift, dtype=float)
+    for b in scene["bodies"]:
+        b["r"] = (R @ np.array(b["r"]) + s).tolist()
+        b["v"] = (R @ np.array(b["v"])).tolist()
+        if b["kind"] == "rigid":
+            b["p"] = rot.quat_mul(quat, np.array(b["p"], dtype=float)).tolist()  # body-fixed w and theta stay
+    seen = set()
+    for co in scene["contacts"]:
+        pl = co.get("plane")
+        if pl is None or id(pl) in seen:
+            continue
+        seen.add(id(pl))
+        pl["r"] = (R @ np.array(pl["r"]) + s).tolist()
+        pl["p"] = rot.quat_mul(quat, np.array(pl["p"], dtype=float)).tolist()
+        if pl.get("motion"):
+            pl["motion"]["amp"] = (R @ np.array(pl["motion"]["amp"])).tolist()  # the tilt axis is given in the plane's own basis
+    if scene.get("gravity") is not None:
+        scene["gravity"] = (R @ np.array(scene["gravity"])).tolist()
+    scene["moved"] = True
+    return scene
